@@ -350,6 +350,26 @@ def setCellRatio (T : Term) (s : St) (a : RatioArg) : St × Val × List Ev :=
   | .fixed => setAuto T s true
   | .dynamic => setAuto T s false
 
+/-! ## consumers of the cell size (graphics images) -/
+
+/-- `GraphicsImage._pixels_cols(cols=n)`, `_pixels_lines(lines=n)`, `_pixels_cols(pixels=n)`,
+    `_pixels_lines(pixels=n)`, `_get_render_size()` of an image whose rendered size is `n × n` -/
+inductive UseKind | colsPx | linesPx | pxCols | pxLines | renderSize
+deriving DecidableEq, Repr
+
+def useVal (k : UseKind) (n : Nat) (c : Nat × Nat) : Val :=
+  match k with
+  | .colsPx => .num (n * c.1)
+  | .linesPx => .num (n * c.2)
+  | .pxCols => .num (n / c.1)
+  | .pxLines => .num (n / c.2)
+  | .renderSize => .cell (some (n * c.1, n * c.2))
+
+/-- each of them is `… get_cell_size() or (1, 2) …`: one plain call, nothing memoized on top -/
+def useCell (T : Term) (s : Core) (k : UseKind) (n : Nat) : Core × Val × List Ev :=
+  let g := getCellSize T s
+  (g.1, useVal k n (g.2.1.getD Generated.fallbackCell), g.2.2)
+
 /-! ## probes for the two decorators -/
 
 def tscBody (w : Win) : Nat × Nat × Nat × Nat := (w.cols, w.rows, w.xpx, w.ypx)
@@ -390,6 +410,7 @@ inductive Op
   | setAcr (v : Option Bool)
   | getCellSize | getCellRatio | getColors (k : CKey) | getNV | isOnKitty
   | getCellSizeR (p : Nat) (w : Win)   -- a lookup overtaken by a resize at point `p`
+  | useCell (k : UseKind) (n : Nat)    -- a graphics-image consumer of the cell size
   | kittySup | itermSup
   | tsc | tscInval | probe (a : Nat) | probeInval
   | tscRaise      -- a probe call whose body raises if it runs
@@ -416,6 +437,7 @@ def step (T : Term) (s : St) : Op → St × Val × List Ev
   | .getCellSize => let g := getCellSize T s.toCore; ({ s with toCore := g.1 }, .cell g.2.1, g.2.2)
   | .getCellSizeR p w => let g := getCellSizeR T s.toCore p w; ({ s with toCore := g.1 }, .cell g.2.1, g.2.2)
   | .getCellRatio => s.lift (getCellRatio T s.toCore)
+  | .useCell k n => s.lift (useCell T s.toCore k n)
   | .getColors k => s.lift (getColors T s.toCore k)
   | .getNV => let g := getNV T s.toCore; ({ s with toCore := g.1 }, .nv g.2.1.1 g.2.1.2, g.2.2)
   | .isOnKitty => s.lift (isOnKitty T s.toCore)
